@@ -1317,7 +1317,7 @@ def jobs(prop, verif_seed, n, tier):
                 continue
             doc.pop("fault_plan", None)
             doc["orders"] = {"op": g_pick(cand, verif_seed, idx), "max": 120 if tier == "quick" else 160}
-            yield {"id": "orders%d" % made, "engine": NAME, "func": "orders", "doc": doc, "wall_cap": 2400}
+            yield {"id": "orders%d" % made, "engine": NAME, "func": "orders", "doc": doc, "wall_cap": 7200}
             made += 1
     if prop == "C14":
         ns = int(os.environ.get("VERIF_SWEEPS") or SPECS["C14"]["sweeps_" + tier])
@@ -1339,7 +1339,7 @@ def jobs(prop, verif_seed, n, tier):
                 sweep["prefix_plan"] = doc["fault_plan"][0]
             doc.pop("fault_plan", None)
             doc["sweep"] = sweep
-            yield {"id": "sweep%d" % made, "engine": NAME, "func": "sweep", "doc": doc, "wall_cap": 2400}
+            yield {"id": "sweep%d" % made, "engine": NAME, "func": "sweep", "doc": doc, "wall_cap": 7200}
             made += 1
     for i in range(n):
         yield {"id": jid, "engine": NAME, "func": "execute", "doc": generate(prop, verif_seed, i, tier), "wall_cap": 120}
